@@ -494,18 +494,39 @@ def check(prop, tier="quick", seed=0, runs=None, jobs=None, max_s=None, out=sys.
         if kf is not None:
             known_hit[sig] = (kf, len(vs), vs[0])
             continue
-        v = vs[0]
-        best, best_r, execs = minimise(mod, v["choices"], sig)
-        if best_r is None:
-            agg["harness_errors"].append({"run_index": v["run_index"], "error": "violation %s did not reproduce on in-process replay (nondeterminism)" % sig, "choices": v["choices"]})
-            continue
-        path = write_replay(prop, seed, v["run_index"], best, len(v["choices"]), best_r, nrep)
-        nrep += 1
-        ok, txt = verify_replay_fresh(prop, path, sig)
-        if not ok:
-            agg["harness_errors"].append({"run_index": v["run_index"], "error": "replay file %s does not reproduce identically in a fresh interpreter:\n%s" % (path, txt)})
-            continue
-        new_violations.append((sig, len(vs), path, best_r["violation"], execs, len(v["choices"]), len(best)))
+        # A violation is reported only if its replay file reproduces it - same signature, same trace digest - in two
+        # pristine processes.  Candidates are tried in turn (shortest choice list first): first the recorded choices
+        # as they are (toasty may keep state between operations in one process, so the long-lived batch process is
+        # not a reliable judge), then the minimised list; the minimised file is used when it reproduces as well.
+        reported = False
+        last_err = None
+        for v in vs[:8]:
+            path0 = write_replay(prop, seed, v["run_index"], v["choices"], len(v["choices"]),
+                                 {"violation": v["violation"], "digest": v["digest"], "config": v.get("config")}, nrep)
+            ok0, txt0 = verify_replay_fresh(prop, path0, sig)
+            if not ok0:
+                last_err = {"run_index": v["run_index"], "error": "violation %s seen in the batch does not reproduce in pristine processes:\n%s" % (sig, txt0[-600:]), "choices": v["choices"]}
+                continue
+            best, best_r, execs = minimise(mod, v["choices"], sig)
+            if best_r is not None and len(best) < len(v["choices"]):
+                path1 = path0[:-5] + "-min.json"
+                os.replace(write_replay(prop, seed, v["run_index"], best, len(v["choices"]), best_r, nrep), path1)
+                ok1, _txt1 = verify_replay_fresh(prop, path1, sig)
+                if ok1:
+                    os.replace(path1, path0)
+                    new_violations.append((sig, len(vs), path0, best_r["violation"], execs, len(v["choices"]), len(best)))
+                    reported = True
+                else:
+                    os.remove(path1)
+            if not reported:
+                viol2 = dict(v["violation"])
+                viol2["detail"] = viol2.get("detail", "") + " [not minimised: the minimised schedule does not reproduce in a pristine process]"
+                new_violations.append((sig, len(vs), path0, viol2, execs, len(v["choices"]), len(v["choices"])))
+                reported = True
+            nrep += 1
+            break
+        if not reported and last_err is not None:
+            agg["harness_errors"].append(last_err)
 
     # required probes
     missing = []
